@@ -33,6 +33,7 @@ type RevAPI struct {
 	Fail    func(context.Context, int) (int, error)
 	Missing func(context.Context, int) (int, error)
 	Nest    func(context.Context, int) (int, error)
+	Note    func(int) `notify:"true"`
 }
 
 type ctl struct {
@@ -101,6 +102,10 @@ func (r *RevH) Slow(ctx context.Context, arg int) (int, error) {
 	}
 	return ident(r.ID, arg), nil
 }
+
+// Note is the target of notify-tagged reverse calls.
+func (r *RevH) Note(arg int) {}
+
 func (r *RevH) Fail(ctx context.Context, arg int) (int, error) {
 	return 0, fmt.Errorf("revfail-%d-%d", r.ID, arg)
 }
@@ -114,9 +119,10 @@ func (r *RevH) Nest(ctx context.Context, arg int) (int, error) {
 
 // FwdAPI is the forward API of the scenario server (namespace "RS").
 type FwdAPI struct {
-	Has func(context.Context) (bool, error)
-	Run func(context.Context, Spec) (Out, error)
-	Add func(int, int) (int, error)
+	Flood func(context.Context, Spec) (Out, error)
+	Has   func(context.Context) (bool, error)
+	Run   func(context.Context, Spec) (Out, error)
+	Add   func(int, int) (int, error)
 }
 
 type Spec struct {
@@ -179,6 +185,48 @@ func (s *RS) Add(a, b int) (int, error) { return a + b, nil }
 func (s *RS) Has(ctx context.Context) (bool, error) {
 	_, ok := jsonrpc.ExtractReverseClient[RevAPI](ctx)
 	return ok, nil
+}
+
+// Flood makes notify-tagged reverse calls from sp.N goroutines for 400 ms (the scenario cuts the client's
+// connection meanwhile); every one of them must return.
+func (s *RS) Flood(ctx context.Context, sp Spec) (Out, error) {
+	out := &Out{}
+	rc, ok := jsonrpc.ExtractReverseClient[RevAPI](ctx)
+	out.Present = ok
+	if !ok {
+		s.mu.Lock()
+		s.out[sp.Tok] = out
+		s.mu.Unlock()
+		close(s.finCh(sp.Tok))
+		return *out, nil
+	}
+	s.C.enter(sp.Tok)
+	var wg sync.WaitGroup
+	var mu sync.Mutex
+	t0 := time.Now()
+	for g := 0; g < sp.N; g++ {
+		wg.Add(1)
+		go func(g int) {
+			defer wg.Done()
+			n := 0
+			for time.Since(t0) < 400*time.Millisecond {
+				rc.Note(sp.Tok*1000 + g)
+				n++
+				time.Sleep(200 * time.Microsecond)
+			}
+			mu.Lock()
+			out.Calls = append(out.Calls, One{Arg: g, Val: n})
+			mu.Unlock()
+		}(g)
+	}
+	go func() {
+		wg.Wait()
+		s.mu.Lock()
+		s.out[sp.Tok] = out
+		s.mu.Unlock()
+		close(s.finCh(sp.Tok))
+	}()
+	return *out, nil
 }
 
 func (s *RS) Run(ctx context.Context, sp Spec) (Out, error) {
@@ -589,6 +637,46 @@ func Gone(d *fw.Driver, res *fw.Result, seed int64, lc lossCase, base int) error
 }
 
 // Absent: no reverse client over HTTP, without the server option, or for another proxy type.
+// NotifyGone: notify-tagged reverse calls in flight while the client's connection is reset — each must
+// return (an error is not even reported to the caller of a notification), none may block.
+func NotifyGone(res *fw.Result, seed int64, kind string, base int) error {
+	w, err := newWorld(seed, true)
+	if err != nil {
+		return err
+	}
+	defer w.close()
+	c, err := w.connect(true)
+	if err != nil {
+		return err
+	}
+	sig := "reverse notifications while the client goes away kind=" + kind
+	tok := base + 7
+	go func() {
+		ctx, cc := context.WithTimeout(context.Background(), 2*time.Second)
+		defer cc()
+		c.api.Flood(ctx, Spec{Tok: tok, N: 8})
+	}()
+	if !w.rs.C.waitEntered(tok, 2*time.Second) {
+		return fmt.Errorf("harness error: Flood did not start")
+	}
+	time.Sleep(30 * time.Millisecond)
+	w.e.PX.Cut(c.id, kind)
+	out, ok := w.rs.result(tok, 5*time.Second)
+	if !ok {
+		res.Add(fw.Finding{Kind: "monitor", Signature: sig + " blocked", Detail: "a notify-tagged reverse call made while the client's connection was being lost has not returned 4.5s after the connection was gone",
+			Case: map[string]interface{}{"scenario": "notify-gone", "kind": kind}})
+	} else {
+		total := 0
+		for _, o := range out.Calls {
+			total += o.Val
+		}
+		res.CountN("reverse.notifications", total)
+	}
+	res.Count("notifygone." + kind)
+	res.Eval(true, []interface{}{"c16", "notify-gone", kind})
+	return nil
+}
+
 func Absent(d *fw.Driver, res *fw.Result, seed int64) error {
 	for _, reverse := range []bool{true, false} {
 		w, err := newWorld(seed, reverse)
@@ -667,6 +755,12 @@ func Run(d *fw.Driver, res *fw.Result, seed int64, thorough bool) error {
 					return err
 				}
 			}
+		}
+	}
+	for j, k := range []string{"rst", "fin"} {
+		base += 1000
+		if err := NotifyGone(res, seed+int64(j), k, base); err != nil {
+			return err
 		}
 	}
 	return Absent(d, res, seed)
